@@ -298,8 +298,17 @@ class Search:
     (digests) and finds self loops and cycles (SCCs) in it."""
 
     def __init__(self, argv, depth=None, max_states=None, with_ddmin=True,
-                 on_state=None, on_proposal=None, classify=None):
+                 on_state=None, on_proposal=None, classify=None,
+                 history_check=0):
         self.classify = classify
+        # the mutator instances live as long as the search (as they live as
+        # long as a run of ddSMT): at the first ``history_check`` states the
+        # proposals are computed a second time with fresh instances and have
+        # to be the same - the transition relation must be a function of
+        # the current input, not of what the instances saw before
+        self.history_check = history_check
+        self.history_mismatches = []
+        self.history_checked = 0
         self.clean_edges = set()
         self.kf_edges = {}
         self.edge_muts = {}
@@ -327,6 +336,7 @@ class Search:
         muts = enabled_mutators()
         k0 = key_of(seed_exprs)
         d0 = digest(k0)
+        self.root = d0
         import collections
         self.names[d0] = k0
         seen = {d0}
@@ -345,6 +355,19 @@ class Search:
                 continue
             props = list(hier_proposals(exprs, muts))
             overrun = any(p.error and p.error[0] == 'budget' for p in props)
+            if not overrun and self.history_checked < self.history_check:
+                self.history_checked += 1
+                import collections as _c
+                fresh = list(hier_proposals(exprs, enabled_mutators()))
+                a = _c.Counter((p.mutator, key_of(p.result)) for p in props
+                               if p.result is not None)
+                b = _c.Counter((p.mutator, key_of(p.result)) for p in fresh
+                               if p.result is not None)
+                if a != b and not any(p.error and p.error[0] == 'budget'
+                                      for p in fresh):
+                    self.history_mismatches.append(
+                        (key_of(exprs), sorted((a - b).keys())[:3],
+                         sorted((b - a).keys())[:3]))
             if self.with_ddmin and not overrun:
                 props += list(ddmin_proposals(exprs))
                 overrun = any(p.error and p.error[0] == 'budget'
@@ -392,6 +415,34 @@ class Search:
                     self.names[dd] = k
                     queue.append((p.result, dd, depth + 1, label))
         return self
+
+    def drop_states_only_reachable_through(self, kind):
+        """Remove the states that are reachable from the seed only through
+        edges that exist solely because of proposals classified as ``kind``
+        (and all their edges).  Returns the number of states removed."""
+        adj = {}
+        for (a, b), labels in self.edge_muts.items():
+            if any(k != kind for _, k in labels):
+                adj.setdefault(a, set()).add(b)
+        reach = {self.root}
+        todo = [self.root]
+        while todo:
+            for b in adj.get(todo.pop(), ()):
+                if b not in reach:
+                    reach.add(b)
+                    todo.append(b)
+        gone = [d for d in self.adj if d not in reach]
+        for d in gone:
+            del self.adj[d]
+        for d in self.adj:
+            self.adj[d] = set(x for x in self.adj[d] if x in reach)
+        for coll in (self.edge_muts, self.kf_edges, self.edge_label):
+            for e in [e for e in coll if e[0] not in reach
+                      or e[1] not in reach]:
+                del coll[e]
+        self.clean_edges = set(e for e in self.clean_edges
+                               if e[0] in reach and e[1] in reach)
+        return len(gone)
 
     def cycles_without(self, mutators_, also=()):
         """Cycles of the graph restricted to edges that exist through some
